@@ -34,14 +34,19 @@ LEVEL_MODES = {
 
 
 def gen_model(rng, force=None, max_strings=20000):
-    """A random OMEN model.  `force` may fix some of: ngram, nalpha, ip_mode,
-    cp_mode, ln_mode, density, ip_density, kmax."""
+    """A random OMEN model.  `force` may fix some of: ngram, nalpha, alphabet,
+    ip_mode, cp_mode, ln_mode, density, ip_density, kmax."""
     f = dict(force or {})
     ngram = f.get("ngram", rng.choice([2, 2, 3, 3, 4, 5]))
-    nalpha = f.get("nalpha", rng.randint(2, 6))
-    alphabet = rng.sample(SYMBOLS, nalpha)
-    if not any(ord(c) > 127 for c in alphabet) and rng.random() < 0.5:
-        alphabet[rng.randrange(nalpha)] = rng.choice([s for s in SYMBOLS if ord(s) > 127 and s not in alphabet])
+    if "alphabet" in f:
+        # a given alphabet (a second model for a directory that already holds one over these symbols)
+        alphabet = list(f["alphabet"])
+        nalpha = len(alphabet)
+    else:
+        nalpha = f.get("nalpha", rng.randint(2, 6))
+        alphabet = rng.sample(SYMBOLS, nalpha)
+        if not any(ord(c) > 127 for c in alphabet) and rng.random() < 0.5:
+            alphabet[rng.randrange(nalpha)] = rng.choice([s for s in SYMBOLS if ord(s) > 127 and s not in alphabet])
     ip_mode = f.get("ip_mode", rng.choice(["low", "low", "mid", "wide", "wide", "hi", "zero", "two", "all10"]))
     cp_mode = f.get("cp_mode", rng.choice(["low", "low", "mid", "mid", "wide", "wide", "hi", "zero", "two"]))
     ln_mode = f.get("ln_mode", rng.choice(["low", "low", "mid", "wide", "zero", "two", "hi", "all10"]))
